@@ -381,6 +381,10 @@ func IGe(a, b *Term) *Term { return icmp(">=", a, b, func(c int) bool { return c
 
 func Pow2(k int) *big.Int { return new(big.Int).Lsh(big.NewInt(1), uint(k)) }
 
+// SymRanges: value range of the input symbols of the function being verified that stand for machine integers
+// (Int encoding; the range facts themselves are among the assumptions of every query). Reset per function.
+var SymRanges = map[string][2]*big.Int{}
+
 // wrap to N-bit machine integer (Int encoding)
 func IWrap(a *Term, bits int, signed bool) *Term {
 	m := Pow2(bits)
@@ -390,6 +394,29 @@ func IWrap(a *Term, bits int, signed bool) *Term {
 			v.Sub(v, m)
 		}
 		return IntBig(v)
+	}
+	// wrap(x mod 2^n, n, _) == wrap(x, n, _): an earlier reduction by the same modulus is redundant
+	inner := a
+	if inner.Op == "sym" {
+		if d, ok := CurDefs[inner.Name]; ok {
+			inner = d // a named definition (conv_N): look at what it stands for
+		}
+	}
+	if inner.Op == "mod" && len(inner.Args) == 2 && inner.Args[1].IsConst() && inner.Args[1].Val.Cmp(m) == 0 {
+		a = inner.Args[0]
+	}
+	// a symbol whose declared machine type already lies within the target range is unchanged by the wrap
+	if a.Op == "sym" {
+		if r, ok := SymRanges[a.Name]; ok {
+			lo, hi := big.NewInt(0), new(big.Int).Sub(m, big.NewInt(1))
+			if signed {
+				lo = new(big.Int).Neg(Pow2(bits - 1))
+				hi = new(big.Int).Sub(Pow2(bits-1), big.NewInt(1))
+			}
+			if r[0].Cmp(lo) >= 0 && r[1].Cmp(hi) <= 0 {
+				return a
+			}
+		}
 	}
 	if !signed {
 		return IModE(a, IntBig(m))
